@@ -1526,6 +1526,13 @@ BTree_findRangeEnd(BTree *self, PyObject *keyarg, int low, int exclude_equal,
         pchild_is_btree = SameType_Check(self, pchild);
         if (i)
         {
+            /* Hold a reference:  the node this child is taken from is
+             * unpinned when the search moves down, and the key comparisons
+             * that follow can run arbitrary code -- code that may evict
+             * that node and so release its children.
+             */
+            Py_INCREF(self->data[i-1].child);
+            Py_XDECREF(deepest_smaller);
             deepest_smaller = self->data[i-1].child;
             deepest_smaller_is_btree = pchild_is_btree;
         }
@@ -1538,7 +1545,11 @@ BTree_findRangeEnd(BTree *self, PyObject *keyarg, int low, int exclude_equal,
             }
             self = BTREE(pchild);
             self_got_rebound = 1;
-            PER_USE_OR_RETURN(self, -1);
+            UNLESS (PER_USE(self))
+            {
+                Py_XDECREF(deepest_smaller);
+                return -1;
+            }
         }
         else
         {
@@ -1604,6 +1615,7 @@ BTree_findRangeEnd(BTree *self, PyObject *keyarg, int low, int exclude_equal,
         result = 0;     /* simply not found */
 
 Done:
+    Py_XDECREF(deepest_smaller);
     if (self_got_rebound)
     {
         PER_UNUSE(self);
